@@ -261,7 +261,9 @@ func Check(re *regexp2.Regexp, s string, ns []int) (Stats, error) {
 		}
 	}
 	asc := append([]canon.Result(nil), seq...)
-	sort.SliceStable(asc, func(i, j int) bool { return asc[i].I < asc[j].I || (asc[i].I == asc[j].I && asc[i].I+asc[i].L < asc[j].I+asc[j].L) })
+	sort.SliceStable(asc, func(i, j int) bool {
+		return asc[i].I < asc[j].I || (asc[i].I == asc[j].I && asc[i].I+asc[i].L < asc[j].I+asc[j].L)
+	})
 	_ = rtl
 	var sb strings.Builder
 	prev := 0
